@@ -619,9 +619,9 @@ func main() {
 	if !r.Quick() {
 		counts = append(counts, 65535, 65536, 65537)
 	}
-	st = r.Explore("sizes", fmt.Sprintf("8 size dimensions (points of a multi-point, vertices of a line, rings of a polygon, lines of a multi-line, polygons of a multi-polygon, members of a collection, sibling sub-collections, nesting depth n/8) x counts %v x {LE,BE} x {absent, 4326}: every decode path", counts), mc.Opts{MaxDev: -1, Split: 2, NewLocal: newLocal}, func(c *mc.Ctx) {
+	st = r.Explore("sizes", fmt.Sprintf("13 size dimensions (vertices of one ring inside a polygon / multi-polygon / collection, of one line inside a multi-line, of a bare ring; points of a multi-point, vertices of a line, rings of a polygon, lines of a multi-line, polygons of a multi-polygon, members of a collection, sibling sub-collections, nesting depth n/8) x counts %v x {LE,BE} x {absent, 4326}: every decode path", counts), mc.Opts{MaxDev: -1, Split: 2, NewLocal: newLocal}, func(c *mc.Ctx) {
 		l := c.Local().(*loc)
-		dim := c.Choose(8)
+		dim := c.Choose(13)
 		n := counts[c.Choose(len(counts))]
 		order := orders[c.Choose(2)]
 		srid := []int{0, 4326}[c.Choose(2)]
@@ -680,6 +680,23 @@ func main() {
 				inner = orb.Collection{inner, pt(i + 1)}
 			}
 			g = inner
+		case 8, 9, 10, 11, 12: // n vertices in ONE inner sequence: a ring of a polygon, of a multi-polygon member, a line of a multi-line, a bare ring, a polygon in a collection
+			long := make([]orb.Point, n)
+			for i := range long {
+				long[i] = pt(i)
+			}
+			switch dim {
+			case 8:
+				g = orb.Polygon{orb.Ring(long), {pt(1), pt(2), pt(1)}}
+			case 9:
+				g = orb.MultiPolygon{{{pt(1), pt(2), pt(1)}}, {orb.Ring(long), {pt(3), pt(4), pt(3)}}}
+			case 10:
+				g = orb.MultiLineString{orb.LineString(long), {pt(1), pt(2)}}
+			case 11:
+				g = orb.Ring(long)
+			case 12:
+				g = orb.Collection{pt(7), orb.Polygon{{pt(1), pt(2), pt(1)}, orb.Ring(long)}, orb.LineString(long)}
+			}
 		}
 		l.calls += int64(checkAll(c, g, srid, order, false))
 		c.NonTrivial()
